@@ -40,7 +40,7 @@ def cbmc_version():
 class Job:
     def __init__(self, name, engine, harness, entry, props, enforce=None, replace=(), defs=(),
                  loop_contracts=False, cbmc_args=(), timeout=600, mem_gb=6, tier="quick",
-                 unwindset=None, note="", expect_fail=(), nondet_static=False, gi_args=(), part=None, cc_args=(), portfolio=False, witness_defs=()):
+                 unwindset=None, note="", expect_fail=(), nondet_static=False, gi_args=(), part=None, cc_args=(), portfolio=False, witness_defs=(), mem_gate=None):
         self.name = name
         self.engine = engine
         self.harness = harness          # path relative to VERIF
@@ -61,6 +61,7 @@ class Job:
         self.cc_args = list(cc_args)
         self.portfolio = portfolio
         self.witness_defs = list(witness_defs)
+        self.mem_gate = mem_gate if mem_gate is not None else mem_gb    # what the scheduler reserves (measured peak), mem_gb is the hard limit
         self.part = part                # (i, n): this job checks the i-th of n shares of the obligations
 
     def workdir(self):
